@@ -223,9 +223,10 @@ def opBld (rest : String) : Option String :=
       match runOps b ops 0 with
       | .error i => some s!"err@{i}"
       | .ok b' =>
-        match b'.build with
-        | some bytes => some s!"ok {hexOf bytes}"
-        | none => some s!"err@{ops.length}"
+        match b'.buildP with
+        | .panic => some "panic"
+        | .val (some bytes) => some s!"ok {hexOf bytes}"
+        | .val none => some s!"err@{ops.length}"
 
 def opWr (rest : String) : Option String :=
   match splitOnce rest " " with
